@@ -7,7 +7,8 @@ ID = "C07"
 LEAN_MODULE = "Ctrmml.Properties.C07"
 THEOREMS = ["C07_multiples_of_147", "C07_tempo_closed_form", "C07_tempo_step_le_two", "C07_play_step_grid", "C07_log_on_grid",
             "C07_attenuation_antitone", "C07_pitch_tables_sound", "C07_short_note_counterexample",
-            "C07_tick_delivery", "C07_update_ticks", "C07_key_frame_partial", "C07_key_frame_start", "C07_pitch_value_partial"]
+            "C07_tick_delivery", "C07_update_ticks", "C07_key_frame_partial", "C07_key_frame_start", "C07_pitch_value_partial",
+            "C07_tick_delivery_all_passes", "C07_log_by_updates", "C07_schedule_fm_partial"]
 LEVEL = "proof"
 STREAM = "vgm.bytes"
 CHUNK = 25
@@ -245,6 +246,106 @@ def random_song(rng, tier):
     return song, ins, tags
 
 
+def fam_loop_passes(rng):
+    """one or two channels, every one `pre L post` with the same short loop length, fast tempi: several loop
+    passes inside few updates, loop sections of 2..6 ticks, loop point reached at different ticks"""
+    chans = rng.choice([[0], [3], [0, 1], [0, 6], [7], [2, 8]])
+    L = rng.choice([2, 2, 3, 4, 5, 6])
+    song = {}
+    tempo = rng.choice([None, ("TEMPO", 255), ("TEMPO", 200), ("TEMPO", 127), ("TEMPO", 64), ("TEMPO_BPM", 255), ("TEMPO_BPM", 150)])
+    for i, c in enumerate(chans):
+        evs = []
+        if tempo and i == 0:
+            evs.append(ev(tempo[0], tempo[1]))
+        for _ in range(rng.randrange(0, 3)):
+            d = rng.choice([1, 2, 3])
+            on = rng.randrange(1, d + 1)
+            evs.append(ev("NOTE", rng.randrange(24, 80), on, d - on) if rng.random() < 0.7 else ev("REST", 0, 0, d))
+        evs.append(ev("SEGNO"))
+        left = L
+        while left > 0:
+            d = rng.randrange(1, left + 1)
+            r = rng.random()
+            if r < 0.6:
+                on = rng.randrange(1, d + 1)
+                evs.append(ev("NOTE", rng.randrange(24, 80), on, d - on))
+            elif r < 0.8:
+                evs.append(ev("REST", 0, 0, d))
+            else:
+                on = rng.randrange(0, d + 1)
+                evs.append(ev("TIE", 0, on, d - on))
+            left -= d
+        song[c] = evs
+    return song, [], {"loop-pass", "segno"}
+
+
+def fam_tempo_boundary(rng):
+    """a tempo command after k ticks of 1-tick items at two ticks per update (k odd / even: first or second
+    tick of an update), then notes whose frames depend on when the new tempo takes effect"""
+    c = rng.choice([0, 4, 6])
+    k = rng.randrange(0, 7)
+    evs = [ev("TEMPO", 255)]
+    for i in range(k):
+        evs.append(ev("NOTE", 30 + i, 1, 0) if rng.random() < 0.5 else ev("REST", 0, 0, 1))
+    evs.append(ev(*rng.choice([("TEMPO", 127), ("TEMPO", 63), ("TEMPO", 254), ("TEMPO", 128), ("TEMPO", 1), ("TEMPO_BPM", 75),
+                               ("TEMPO_BPM", 150), ("TEMPO_BPM", 300)])))
+    for i in range(rng.randrange(2, 6)):
+        d = rng.choice([1, 2, 3])
+        on = rng.randrange(1, d + 1)
+        evs.append(ev("NOTE", 50 + i, on, d - on))
+        if rng.random() < 0.25:
+            evs.append(ev("TEMPO", rng.choice([255, 200, 100, 31])))
+    song = {c: evs}
+    if rng.random() < 0.4:
+        other = 1 if c != 1 else 2
+        song[other] = [ev("NOTE", 40, 3, 1), ev("TEMPO", rng.choice([255, 64, 180])), ev("NOTE", 41, 2, 2), ev("NOTE", 43, 4, 0)]
+    return song, [], {"tempo-boundary", "tempo-native"}
+
+
+def fam_slur_chain(rng):
+    """chains of slurred notes (no re-key, pitch change only), with ties and rests in between, on FM and PSG"""
+    c = rng.choice([0, 5, 6, 8])
+    evs = []
+    if rng.random() < 0.5:
+        evs.append(ev("TEMPO", rng.choice([255, 200, 128, 90])))
+    for _ in range(rng.randrange(1, 4)):
+        d = rng.choice([2, 3, 4, 6])
+        evs.append(ev("NOTE", rng.randrange(30, 70), d, 0))
+        for _ in range(rng.randrange(1, 5)):
+            evs.append(ev("SLUR"))
+            d = rng.choice([2, 3, 4])
+            on = d if rng.random() < 0.7 else rng.randrange(2, d + 1)
+            evs.append(ev("NOTE", rng.randrange(30, 70), on, d - on))
+            if rng.random() < 0.2:
+                evs.append(ev("TIE", 0, 2, 0))
+        if rng.random() < 0.6:
+            evs.append(ev("REST", 0, 0, rng.choice([1, 2, 3])))
+    return {c: evs}, [], {"slur-chain", "slur"}
+
+
+def fam_psg_volume(rng):
+    """PSG notes at the boundaries of the volume scales: coarse 0/15 and one step beyond, fine 0,1,2,41,42,63,64,
+    relative steps across them, envelopes whose first level is 15 / 8 / 0"""
+    c = rng.choice([6, 7, 8])
+    ins = [(10, ["psg", "15"]), (11, ["psg", "8", "4:3"]), (12, ["psg", "0"])]
+    evs = []
+    if rng.random() < 0.7:
+        evs.append(ev("INS", rng.choice([10, 11, 12])))
+    for _ in range(rng.randrange(2, 6)):
+        r = rng.random()
+        if r < 0.35:
+            evs.append(ev("VOL", rng.choice([0, 1, 14, 15])))
+        elif r < 0.6:
+            evs.append(ev("VOL_FINE", rng.choice([0, 1, 2, 3, 41, 42, 43, 63, 64, 65, 127])))
+        elif r < 0.85:
+            evs.append(ev(rng.choice(["VOL_REL", "VOL_FINE_REL"]), rng.choice([-2, -1, 1, 2])))
+        else:
+            evs.append(ev("INS", rng.choice([10, 11, 12])))
+        d = rng.choice([2, 3, 4])
+        evs.append(ev("NOTE", rng.randrange(30, 80), d, rng.choice([0, 1, 2])))
+    return {c: evs}, ins, {"psg-volume", "vol"}
+
+
 CORPUS = [
     # one FM note / one PSG note, default tempo
     "mdvgm T0:2.48.2.1,2.50.3.0",
@@ -282,6 +383,15 @@ CORPUS = [
     # unsupported panning value / PSG panning: InputError
     "mdvgm T3:21.7.0.0,2.40.2.2",
     "mdvgm T6:21.1.0.0,2.40.2.2",
+    # loop point inside a subroutine: the second pass resumes at that index of the channel's own track (known finding segno-in-sub)
+    "mdvgm T0:2.40.2.0,8.100.0.0,2.45.2.2 T100:2.60.1.1,7.0.0.0,2.61.1.1",
+    # loop point inside a counted loop: the jump back lands in the loop body with an empty stack (known finding segno-in-loop)
+    "mdvgm T0:27.255.0.0,4.0.0.0,2.40.2.0,7.0.0.0,2.42.1.0,6.2.0.0,2.45.4.4",
+    # the song of the non-vacuity examples of Properties/C07 (loop passes of a single FM channel)
+    "mdvgm T0:2.40.2.1,7.0.0.0,2.42.2.2",
+    # a loop section that takes no time ends the track; two loop points at the top level
+    "mdvgm T0:2.40.2.0,7.0.0.0,13.5.0.0",
+    "mdvgm T0:2.40.2.0,7.0.0.0,2.41.1.1,7.0.0.0,2.42.2.2",
     # structural errors
     "mdvgm T0:2.40.2.2,6.2.0.0",
     "mdvgm T0:8.300.0.0",
@@ -312,6 +422,10 @@ def cases(rng, tier):
     for v in range(0, 128, 16 if tier == "quick" else 1):
         yield Case("mdvgm T4:17.1.0.0,20.%d.0.0,2.40.1.1 T8:20.%d.0.0,2.40.1.1 @1=fm,5,0,%s" % (
             v, v, ",".join("31,0,0,0,0,%d,0,1,0,0" % tl for tl in (20, 127, 64, 0))), ("volfine", "exh"), "exhaustive")
+    for fam, cnt in ((fam_loop_passes, 60), (fam_tempo_boundary, 50), (fam_slur_chain, 40), (fam_psg_volume, 40)):
+        for _ in range(cnt if tier == "quick" else cnt * 12):
+            song, ins, tags = fam(rng)
+            yield Case(render(song, ins), sorted(tags), "structured")
     n = 600 if tier == "quick" else 12000
     made = 0
     while made < n:
